@@ -89,6 +89,10 @@ func c13Menu() map[string]c13Up {
 		"P": {Name: "P", Backend: "*port", User: "up@users.test", YAML: func(e map[string]string) string {
 			return svc("svcp", `^portal\.sso\.test`, "127.0.0.1", "rewrite", addr("up@users.test"), "")
 		}},
+		// a second rewrite upstream whose pattern is, character for character, that of S: the one resolved first wins
+		"D": {Name: "D", Backend: "d", User: "ud@users.test", YAML: func(e map[string]string) string {
+			return svc("svcd", `^svc-.*\.sso\.test$`, e["d"], "rewrite", addr("ud@users.test"), "")
+		}},
 		// an overlapping rewrite with a fixed backend
 		"S": {Name: "S", Backend: "s", User: "us@users.test", YAML: func(e map[string]string) string {
 			return svc("svcs", `^svc-.*\.sso\.test$`, e["s"], "rewrite", addr("us@users.test"), "")
@@ -107,7 +111,7 @@ func c13Run(c *fw.Ctx) {
 	vtime.SetManual(harness.T0)
 	defer vtime.SetReal()
 	menu := c13Menu()
-	sets := [][]string{{"A", "B"}, {"A", "C"}, {"A", "R", "S"}, {"S", "R", "A"}, {"B", "S"}, {"R", "B", "A"}, {"S", "T"}, {"T", "R", "S"}, {"U", "W"}, {"W", "U"}, {"G", "W"}, {"W", "L"}, {"L", "W"}, {"M", "A"}, {"P", "A"}}
+	sets := [][]string{{"A", "B"}, {"A", "C"}, {"A", "R", "S"}, {"S", "R", "A"}, {"B", "S"}, {"R", "B", "A"}, {"S", "T"}, {"T", "R", "S"}, {"U", "W"}, {"W", "U"}, {"G", "W"}, {"W", "L"}, {"L", "W"}, {"M", "A"}, {"P", "A"}, {"S", "D"}, {"D", "S", "A"}}
 	if c.Thorough() {
 		sets = append(sets, []string{"A", "B", "C"}, []string{"C", "R"}, []string{"S", "A", "B"}, []string{"R", "S", "C"}, []string{"B", "R", "S"})
 	}
@@ -123,7 +127,7 @@ func c13Run(c *fw.Ctx) {
 			return e
 		}
 		// backends first (their addresses go into the document)
-		names := []string{"a", "b", "c", "s", "t", "p", "u", "w", "g", "l", "m"}
+		names := []string{"a", "b", "c", "s", "t", "p", "u", "w", "g", "l", "m", "d"}
 		// ProxyOpts substitutes {{backend:X}}; build the document with those placeholders
 		addrs := map[string]string{}
 		for _, n := range names {
